@@ -287,6 +287,12 @@ impl Check for MalformedFrames {
                     a
                 }),
                 (true, ArpPacket::new_request(2, Ipv4Address::new(client), Ipv4Address::new(server)).build()[..27].to_vec()),
+                // the last fragments that end exactly in the top bytes of the 64 KiB space (offset 8191, 1..7 data bytes): legal
+                // as pieces, never completed; and the same one byte too long
+                (false, { let mut b = ipv4_header([10, 1, 0, 77], server, 17, 4); b.extend_from_slice(&[0xEE, 0x14, 0xFF, 0x77]); b[6] = 0x1f; b[7] = 0xff; b }),
+                (false, { let mut b = ipv4_header([10, 1, 0, 77], server, 17, 7); b.extend_from_slice(&[0xEE, 0x14, 0xFF, 0x77, 1, 2, 3]); b[6] = 0x1f; b[7] = 0xff; b }),
+                (false, { let mut b = ipv4_header([10, 1, 0, 77], server, 17, 8); b.extend_from_slice(&[0xEE, 0x14, 0xFF, 0x77, 1, 2, 3, 4]); b[6] = 0x1f; b[7] = 0xff; b }),
+                (false, { let mut b = ipv4_header([10, 1, 0, 77], server, 6, 1); b.push(0xAB); b[6] = 0x3f; b[7] = 0xff; b }),
                 // datagrams for the DHCP server (port 67) with a body the DHCP decoder rejects: cut short, message type
                 // out of range, a string that is not UTF-8
                 (false, dhcp(&valid_dhcp[..valid_dhcp.len().min(7)])),
